@@ -5,6 +5,7 @@ import (
 	"flag"
 	"fmt"
 	"os"
+	"os/exec"
 	"path/filepath"
 	"runtime"
 	"sort"
@@ -60,6 +61,7 @@ func cmdCheck(args []string) int {
 	only := fs.String("only", "", "restrict to functions containing this substring (debug)")
 	verbose := fs.Bool("v", false, "verbose")
 	timeout := fs.Int("timeout", 0, "per-obligation timeout (s)")
+	noEvidence := fs.Bool("noevidence", false, "do not write evidence/<id>.json (used for runs on scratch copies)")
 	_ = fs.Parse(args)
 	t0 := time.Now()
 	root := verifRoot()
@@ -96,6 +98,7 @@ func cmdCheck(args []string) int {
 			knownFailing[k.Obligation] = true
 		}
 	}
+	currentRepo = *repo
 	currentGhostNames = map[string]bool{}
 	for g := range cs.Ghost {
 		currentGhostNames[g] = true
@@ -186,7 +189,7 @@ func cmdCheck(args []string) int {
 	if *verbose {
 		fmt.Fprintf(os.Stderr, "vcgen done at %.1fs\n", time.Since(t0).Seconds())
 	}
-	work := filepath.Join(root, ".work", *prop)
+	work := filepath.Join(root, ".work", *prop+os.Getenv("GOVC_WORK_SUFFIX"))
 	_ = os.RemoveAll(work)
 	_ = os.MkdirAll(work, 0755)
 	loadSolverHints(root)
@@ -335,6 +338,19 @@ func cmdCheck(args []string) int {
 			}
 		}
 	}
+	// thorough tier: canaries - every seeded property-breaking change of this property (seeded/<id>/patch.diff) is
+	// applied to a scratch copy of the working tree and the quick check is run on that copy; it has to report a
+	// violation. A canary that is not detected does not say anything about the tree, it says the check is weaker
+	// than it should be: reported as a note and recorded in the evidence.
+	var canaryLines []string
+	if *tier == "thorough" && os.Getenv("GOVC_NO_CANARIES") == "" && *repo == "/repo" {
+		canaryLines = runCanaries(root, *repo, *prop)
+		for _, l := range canaryLines {
+			if strings.Contains(l, "NOT DETECTED") {
+				fmt.Println("NOTE: selftest " + l)
+			}
+		}
+	}
 	// expectation: obligation names that must exist
 	missing := checkExpect(root, *prop, obls)
 	for _, m := range missing {
@@ -407,6 +423,7 @@ func cmdCheck(args []string) int {
 		"cover_queries":            nCover,
 		"cover_sat":                nCoverOK,
 		"known_findings":           knownList,
+		"canaries":                 canaryLines,
 		"replay_recipes":           recipeLines,
 		"failed_obligations":       namesOf(failedObl),
 		"exhaustive":               false,
@@ -414,6 +431,9 @@ func cmdCheck(args []string) int {
 	}
 	ev := Evidence{PropertyID: *prop, Tier: *tier, Seed: seedFromEnv(), Level: lvl, Coverage: cov,
 		Assumptions: trusted, WallS: round3(time.Since(t0).Seconds()), Violations: nViol}
+	if *noEvidence {
+		return exit
+	}
 	_ = os.MkdirAll(filepath.Join(root, "evidence"), 0755)
 	b, _ := json.MarshalIndent(ev, "", " ")
 	_ = os.WriteFile(filepath.Join(root, "evidence", *prop+".json"), b, 0644)
@@ -544,3 +564,67 @@ func cmdList(args []string) int {
 }
 
 var _ = ssa.NaiveForm
+
+// runCanaries: see the call site. The scratch copy lives outside /repo and /verif and is removed afterwards.
+func runCanaries(root, repo, prop string) []string {
+	var out []string
+	dirs, _ := filepath.Glob(filepath.Join(root, "seeded", "*"))
+	sort.Strings(dirs)
+	for _, d := range dirs {
+		b, err := os.ReadFile(filepath.Join(d, "meta.json"))
+		if err != nil {
+			continue
+		}
+		var meta struct {
+			Property string `json:"property"`
+		}
+		if json.Unmarshal(b, &meta) != nil || meta.Property != prop {
+			continue
+		}
+		name := filepath.Base(d)
+		scratch, err := os.MkdirTemp("", "govc-canary-")
+		if err != nil {
+			continue
+		}
+		func() {
+			defer os.RemoveAll(scratch)
+			if o, err := exec.Command("rsync", "-a", "--exclude", ".git", repo+"/", scratch+"/").CombinedOutput(); err != nil {
+				out = append(out, fmt.Sprintf("canary %s: scratch copy failed: %s", name, strings.TrimSpace(string(o))))
+				return
+			}
+			ap := exec.Command("git", "apply", "--unsafe-paths", "--directory="+scratch, filepath.Join(d, "patch.diff"))
+			ap.Dir = "/"
+			if o, err := ap.CombinedOutput(); err != nil {
+				out = append(out, fmt.Sprintf("canary %s: patch no longer applies to the working tree (skipped): %s", name, firstLine(string(o))))
+				return
+			}
+			c := exec.Command(os.Args[0], "check", "--repo", scratch, "--prop", prop, "--tier", "quick", "--noevidence")
+			c.Env = append(os.Environ(), "GOVC_NO_CANARIES=1", "GOVC_WORK_SUFFIX=-canary")
+			o, _ := c.CombinedOutput()
+			code := c.ProcessState.ExitCode()
+			if code == 1 && strings.Contains(string(o), "VIOLATION property="+prop) {
+				first := ""
+				for _, l := range strings.Split(string(o), "\n") {
+					if strings.HasPrefix(l, "VIOLATION") {
+						if i := strings.Index(l, "obligation="); i >= 0 {
+							first = strings.Fields(l[i+11:])[0]
+						}
+						break
+					}
+				}
+				out = append(out, fmt.Sprintf("canary %s: detected (%s)", name, shortKey(first)))
+			} else {
+				out = append(out, fmt.Sprintf("canary %s: NOT DETECTED by the quick check (exit %d)", name, code))
+			}
+		}()
+	}
+	return out
+}
+
+func firstLine(s string) string {
+	s = strings.TrimSpace(s)
+	if i := strings.Index(s, "\n"); i >= 0 {
+		return s[:i]
+	}
+	return s
+}
